@@ -339,6 +339,9 @@ def check(run: Run) -> None:
     from .c04 import check_number_spelling
 
     check_number_spelling(run, "R15.8")
+    from .c04 import check_parser_keeps_kind
+
+    check_parser_keeps_kind(run, "R15.9")  # a sealed text that is read back with another kind of value no longer verifies
     check_seal_is_last(run, am, seal)
 
     # ---------------------------------------------------------------- R15.5
